@@ -35,6 +35,11 @@ Agrees(k, o) ==
     /\ \A j \in DOMAIN o.names : o.reported[j] = <<k[o.names[j]].g, k[o.names[j]].l>>
     /\ \A p \in 0..N + 1 : o.next[p + 1] = D!NextOf(D!LightNames(k), p) /\ o.prev[p + 1] = D!PrevOf(D!LightNames(k), p)
     /\ \A g \in 1..G + 1 : o.absent_group[g] = (g \notin {k[x].g : x \in DOMAIN k})     \* asking for an empty/unknown group yields nothing
+    \* the VM's step through a group's members, from any probe value (-1: not recorded)
+    /\ \A g \in 1..G : \A p \in 0..N + 1 :
+           LET ms == IF g \in {k[x].g : x \in DOMAIN k} THEN D!GroupMembers(k, g) ELSE <<>>
+           IN  /\ o.gnext[g][p + 1] \in {-1, D!NextOf(ms, p)}
+               /\ o.gprev[g][p + 1] \in {-1, D!PrevOf(ms, p)}
 
 Say(ok, why) == PrintT(ToJson([id |-> R.id, ok |-> ok, why |-> why, at |-> i]))
 Init == rec \in 1..Len(Batch) /\ i = 1 /\ st = "run" /\ known = <<>> /\ now = 0 /\ hist = <<>>
